@@ -291,6 +291,10 @@ def _fd_func_wrap(name, real):
             ev = {"sendfile": "sendfile", "copy_file_range": "sendfile", "write": "f.write", "pwrite": "f.write",
                   "ftruncate": "f.truncate", "fsync": "f.flush"}[name]
             ctx.fire(Event(ev, [p]))
+            hook = getattr(ctx, "write_hook", None)
+            if hook is not None and name == "write" and len(a) >= 2:
+                n = hook(len(a[1]))        # simulate a short write: the OS takes only the first n bytes
+                return real(a[0], bytes(a[1])[:n])
         return real(*a, **k)
     w.__wrapped__ = real
     return w
